@@ -64,7 +64,7 @@ type c27bObs struct {
 	OrderBad, Dups, HandlerMismatch                  int
 	Wit                                              string
 	PendingAtClose                                   int
-	ClosedErrors                                     int
+	ClosedErrors, Foreign                            int
 	Nontrivial                                       bool
 	Inconclusive                                     string
 	HotSites                                         []string
@@ -104,10 +104,18 @@ func c27bGen(rng *rand.Rand, i int) c27bScript {
 	return s
 }
 
-func c27bMsgID(caller, seq int) string { return "m|" + strconv.Itoa(caller) + "|" + strconv.Itoa(seq) }
+var c27bCaseNo atomic.Int64
+
+func c27bMsgID(tag string, caller, seq int) string {
+	return tag + "m|" + strconv.Itoa(caller) + "|" + strconv.Itoa(seq)
+}
 
 func c27bRun(st *c27Stub, s c27bScript, seed int64) (obs c27bObs) {
 	ctx := context.Background()
+	// ids carry the case number: a request of an earlier case whose RPC the client gave up
+	// on (5 s flush timeout on a slow machine) may reach the stub during a later case
+	tag := strconv.FormatInt(c27bCaseNo.Add(1), 10) + "#"
+	var foreign atomic.Int64
 	delivered := c27NewRec()
 	failed := c27NewRec()
 	var batches, failedBatches, maxSeen atomic.Int64
@@ -118,17 +126,26 @@ func c27bRun(st *c27Stub, s c27bScript, seed int64) (obs c27bObs) {
 	}
 	var mismatch atomic.Int64
 	hooks := &c27Hooks{OnTell: func(_ context.Context, req *internalpb.RemoteTellRequest) (proto.Message, error) {
+		ids := make([]string, 0, len(req.GetRemoteMessages()))
+		for _, m := range req.GetRemoteMessages() {
+			id := c27ID(m)
+			if !strings.HasPrefix(id, tag) {
+				foreign.Add(1)
+				continue
+			}
+			ids = append(ids, strings.TrimPrefix(id, tag))
+		}
+		if len(ids) == 0 && len(req.GetRemoteMessages()) > 0 {
+			// a late request of an earlier case: not part of this script
+			return new(internalpb.RemoteTellResponse), nil
+		}
 		k := int(batches.Add(1) - 1)
 		inHandler.Add(1)
 		if gate != nil && k == 0 {
 			<-gate
 		}
-		if n := int64(len(req.GetRemoteMessages())); n > maxSeen.Load() {
+		if n := int64(len(ids)); n > maxSeen.Load() {
 			maxSeen.Store(n)
-		}
-		ids := make([]string, 0, len(req.GetRemoteMessages()))
-		for _, m := range req.GetRemoteMessages() {
-			ids = append(ids, c27ID(m))
 		}
 		switch s.Actions[k] {
 		case "proto-error":
@@ -153,7 +170,7 @@ func c27bRun(st *c27Stub, s c27bScript, seed int64) (obs c27bObs) {
 		}
 		ids := make([]string, 0, len(msgs))
 		for _, m := range msgs {
-			ids = append(ids, c27ID(m))
+			ids = append(ids, strings.TrimPrefix(c27ID(m), tag))
 		}
 		failed.Add(ids...)
 	})).(*client)
@@ -208,7 +225,7 @@ func c27bRun(st *c27Stub, s c27bScript, seed int64) (obs c27bObs) {
 	fence := func() bool {
 		for n := 1; n <= 100; n++ {
 			id := "f|" + strconv.Itoa(n)
-			if err := cl.RemoteTell(ctx, from, to, wrapperspb.String(id)); err != nil {
+			if err := cl.RemoteTell(ctx, from, to, wrapperspb.String(tag+id)); err != nil {
 				obs.Inconclusive = "fence rejected: " + err.Error()
 				return false
 			}
@@ -233,7 +250,7 @@ func c27bRun(st *c27Stub, s c27bScript, seed int64) (obs c27bObs) {
 			go func(c int) {
 				defer wg.Done()
 				for q := 0; q < s.PerCall; q++ {
-					_ = tell(c*s.PerCall+q, c27bMsgID(c, q), ctx)
+					_ = tell(c*s.PerCall+q, c27bMsgID(tag, c, q), ctx)
 					if q%16 == 15 {
 						runtime.Gosched()
 					}
@@ -253,7 +270,7 @@ func c27bRun(st *c27Stub, s c27bScript, seed int64) (obs c27bObs) {
 		}
 	case "close-with-pending":
 		// first message: its batch hangs in the gated handler
-		if err := tell(total, "m|first", ctx); err != nil {
+		if err := tell(total, tag+"m|first", ctx); err != nil {
 			obs.Inconclusive = "first send rejected: " + err.Error()
 			cl.Close()
 			return obs
@@ -271,7 +288,7 @@ func c27bRun(st *c27Stub, s c27bScript, seed int64) (obs c27bObs) {
 			go func(c int) {
 				defer wg.Done()
 				for q := 0; q < per && c*per+q < s.Pending; q++ {
-					_ = tell(c*s.PerCall+q, c27bMsgID(c, q), ctx)
+					_ = tell(c*s.PerCall+q, c27bMsgID(tag, c, q), ctx)
 				}
 			}(c)
 		}
@@ -303,7 +320,7 @@ func c27bRun(st *c27Stub, s c27bScript, seed int64) (obs c27bObs) {
 			go func(c int) {
 				defer wg.Done()
 				for q := 0; q < s.PerCall; q++ {
-					if err := tell(c*s.PerCall+q, c27bMsgID(c, q), ctx); err != nil {
+					if err := tell(c*s.PerCall+q, c27bMsgID(tag, c, q), ctx); err != nil {
 						closedErrs.Add(1)
 						if closeCalled.Load() {
 							return
@@ -327,7 +344,7 @@ func c27bRun(st *c27Stub, s c27bScript, seed int64) (obs c27bObs) {
 				defer wg.Done()
 				for q := 0; q < s.PerCall; q++ {
 					cctx, cancel := context.WithTimeout(ctx, 3*time.Millisecond)
-					_ = tell(c*s.PerCall+q, c27bMsgID(c, q), cctx)
+					_ = tell(c*s.PerCall+q, c27bMsgID(tag, c, q), cctx)
 					cancel()
 				}
 			}(c)
@@ -350,7 +367,7 @@ func c27bRun(st *c27Stub, s c27bScript, seed int64) (obs c27bObs) {
 		if i == total {
 			return "m|first"
 		}
-		return c27bMsgID(i/s.PerCall, i%s.PerCall)
+		return c27bMsgID("", i/s.PerCall, i%s.PerCall)
 	}
 	for i := range accepted {
 		id := idOf(i)
@@ -403,6 +420,7 @@ func c27bRun(st *c27Stub, s c27bScript, seed int64) (obs c27bObs) {
 	obs.MaxBatchSeen = int(maxSeen.Load())
 	obs.HandlerMismatch = int(mismatch.Load())
 	obs.ClosedErrors = int(closedErrs.Load())
+	obs.Foreign = int(foreign.Load())
 	if strandedCoal != nil {
 		obs.Stranded = len(strandedCoal.in)
 	}
@@ -446,6 +464,7 @@ func TestVerif_C27(t *testing.T) {
 		r.Count("client_batches", int64(obs.Batches))
 		r.Count("client_failed_batches", int64(obs.FailedBatches))
 		r.Count("client_kind_"+s.Kind, 1)
+		r.Count("client_late_requests_of_earlier_cases", int64(obs.Foreign))
 		r.Count("client_stranded_in_channel_after_close", int64(obs.Stranded))
 		r.Max("max_client_batch_len", int64(obs.MaxBatchSeen))
 		r.Max("max_client_pending_at_close", int64(obs.PendingAtClose))
